@@ -830,7 +830,7 @@ func staleTargetsWorld() (*world, error) {
 	return w, nil
 }
 
-// ---------------------------------------------------------------- scripted scenario: known finding C01-eds-cache-key-ignores-scoped-service-ports
+// ---------------------------------------------------------------- scripted scenario: former finding C01-eds-cache-key-ignores-scoped-service-ports (repaired in /repo a15781a)
 //
 // ns1 proxies see s0.ns1.example with ports 80 and 9000.  A root-namespace default Sidecar (egress ns2/* only) is created:
 // the ns2 sidecar now sees s0.ns1.example only through the destination of VirtualService ns2/v1, as a copy of the service
